@@ -17,6 +17,7 @@ type vSrc struct {
 	eofWith bool // deliver the last bytes together with io.EOF (allowed by the io.Reader contract)
 	ndLeft  int  // nondeterministic reads left (then whole reads); bounds the 3^reads fan-out
 	zero    bool // every other Read returns (0, nil) (legal, if discouraged, for an io.Reader)
+	four    bool // at most four bytes per read
 }
 
 func (s *vSrc) Read(p []byte) (int, error) {
@@ -36,6 +37,10 @@ func (s *vSrc) Read(p []byte) (int, error) {
 	}
 	if s.one {
 		n = 1
+	} else if s.four {
+		if n > 4 {
+			n = 4
+		}
 	} else if s.zero {
 		if n > 2 {
 			n = 2
